@@ -78,7 +78,7 @@ fn c20_leaf_line() {
     kani::cover!(!l1 && !ll);
 }
 
-// @cell props=C20 tier=thorough kind=attempt timeout=3000 mem=16 cls=K
+// @cell props=C20 tier=thorough kind=attempt timeout=600 mem=16 cls=K
 // @desc an ignored leaf under a depth-1 parent: prefix ++ branch ++ name, two spaces, "(ignored)"
 #[kani::proof]
 #[kani::unwind(34)]
